@@ -175,7 +175,7 @@ class Lib:
                     not ex.fork(z3.Select(v.dom, k), "key present"):
                 ex.raise_builtin(KeyError, idx)
             return elem_from_arrays(ex, v.schema, v.arrays, k)
-        if isinstance(v, (dict, list, str)) and not isinstance(idx, Sym):
+        if isinstance(v, (dict, list, str, types.MappingProxyType)) and not isinstance(idx, Sym):
             try:
                 return v[idx]
             except (KeyError, IndexError) as e:
@@ -1034,6 +1034,20 @@ def m_unpack(ex, args, kw):
 def m_unpack_from(ex, args, kw):
     off = args[2] if len(args) > 2 else kw.get("offset", 0)
     return do_unpack(ex, args[0], args[1], off, exact=False)
+
+
+@model(struct.pack_into)
+def m_pack_into(ex, args, kw):
+    fmt, buf, offset = args[0], args[1], args[2]
+    data = do_pack(ex, fmt, list(args[3:]))
+    n = ops.b_len(lift_bytes(data))
+    off = lift_int(offset)
+    if not isinstance(buf, MutBytes):
+        raise OutOfReach("pack_into a buffer that is not a bytearray")
+    if ex.fork(z3.Or(off < 0, off + n > b_len(buf.t)), "pack_into beyond the buffer"):
+        ex.raise_builtin(struct.error, "pack_into requires a buffer of sufficient size")
+    ex.lib.setslice(ex, buf, Sym(off, INT), Sym(z3.simplify(off + n), INT), data)
+    return None
 
 
 @model(struct.calcsize)
